@@ -172,8 +172,39 @@ func mkPkt(id packet.ID, alt int) packet.Generic {
 	return &packet.Subscribe{ID: id, Subscriptions: []packet.Subscription{{Topic: "s", QOS: 1}}}
 }
 
+// restore replaces the store of one direction by one rebuilt from a list of packets (NewPacketStoreWithPackets: what
+// a persistent backend does with the packets it kept) — ids may repeat in the list (a PUBLISH and the PUBREL that
+// superseded it), id-less packets may occur; the result is the map the same saves would have produced
+func (x *S) restore(d session.Direction, ps []packet.Generic) {
+	st := session.NewPacketStoreWithPackets(ps)
+	if d == session.Incoming {
+		x.s.Incoming = st
+	} else {
+		x.s.Outgoing = st
+	}
+	x.ref[d] = map[packet.ID]string{}
+	x.op("sess clear "+dirName(d), "ok")
+	for _, p := range ps {
+		x.op("sess save "+dirName(d)+" "+wire.ShowPacket(p), "ok")
+		if id, ok := packet.GetID(p); ok {
+			x.ref[d][id] = wire.ShowPacket(p)
+		}
+	}
+	w.Count("store/restore")
+}
+
 func (x *S) apply(o sop) {
 	switch o.kind {
+	case "restore":
+		// o.alt selects the list: repeated ids, id-less packets, the empty list
+		var ps []packet.Generic
+		for i := 0; i < o.alt%5; i++ {
+			ps = append(ps, mkPkt(packet.ID(1+(int(o.id)+i*(o.alt/5))%3), o.alt+i))
+			if (o.alt+i)%4 == 0 {
+				ps = append(ps, &packet.Pingreq{})
+			}
+		}
+		x.restore(o.d, ps)
 	case "save":
 		x.save(o.d, mkPkt(o.id, o.alt))
 	case "lookup":
@@ -257,7 +288,7 @@ func run(r *gen.Rng, tier string, shard, nshard int) {
 		}
 		alpha = append(alpha, sop{"all", d, 0, 0}, sop{"idless", d, 0, 2})
 	}
-	alpha = append(alpha, sop{"reset", 0, 0, 0})
+	alpha = append(alpha, sop{"reset", 0, 0, 0}, sop{"restore", session.Outgoing, 1, 3}, sop{"restore", session.Incoming, 1, 12})
 	depth := 3
 	if tier == "thorough" {
 		depth = 4
@@ -298,7 +329,7 @@ func run(r *gen.Rng, tier string, shard, nshard int) {
 	if tier == "thorough" {
 		n = 1000
 	}
-	kinds := []string{"save", "save", "save", "lookup", "delete", "all", "idless", "reset"}
+	kinds := []string{"save", "save", "save", "lookup", "delete", "all", "idless", "reset", "restore"}
 	for i := 0; i < n/nshard+1; i++ {
 		w.Case("store-random")
 		x := newS()
@@ -306,7 +337,7 @@ func run(r *gen.Rng, tier string, shard, nshard int) {
 		w.Sample(fmt.Sprintf("random store history of %d ops over 12 ids, both directions", l))
 		for j := 0; j < l; j++ {
 			k := kinds[r.Intn(len(kinds))]
-			if k == "reset" && r.Intn(8) != 0 {
+			if (k == "reset" || k == "restore") && r.Intn(8) != 0 {
 				k = "save"
 			}
 			x.apply(sop{k, session.Direction(r.Intn(2)), packet.ID(r.Pick(1, 2, 3, 4, 5, 6, 7, 8, 255, 256, 65534, 65535)), r.Intn(8)})
